@@ -92,6 +92,8 @@ impl<const S: usize> Multihasher<S> for Scripted {
         let kind = self.answers.iter().find(|(c, _)| *c == code).map(|x| x.1).unwrap_or('u');
         // 'p': a picky hasher — the same code is hashed or refused (non-fatally) depending on the data
         let kind = if kind == 'p' { if input.first() == Some(&0xee) { 'c' } else { 'o' } } else { kind };
+        // 'q': the same, but the refusal is "unknown code": an older hasher (or the built-in table) is asked
+        let kind = if kind == 'q' { if input.first() == Some(&0xee) { 'u' } else { 'o' } } else { kind };
         match kind {
             'o' => {
                 // a deterministic fake digest: hasher index, then a checksum of the input
